@@ -308,6 +308,77 @@ def make_gdf(oid, pe, engine, with_data):
                       exact=False, functions=FUNCS, bounds="4 faces over 8 nodes, all node longitudes symbolic", stubs=STUBS, max_paths=3000)
 
 
+def make_gdf_proj(oid, pe, engine, proj, project):
+    """UxDataArray.to_geodataframe with a projection: which faces survive and which data value sits in which row (the row <-> face relation is read
+    off the data column: the values are distinct unknowns).  proj 'P1': central longitude 0, 'P2': central longitude 90 (the antimeridian moves)."""
+    central = 0.0 if proj == "P1" else 90.0
+
+    def setup(ctx):
+        ctx.const("pe", pe); ctx.const("engine", engine); ctx.const("proj", proj); ctx.const("project", project)
+        lon = _sym_lon(ctx) if pe != "split" else _perturbed_lon(ctx)
+        data = [z3.Real(f"d_{f}") for f in range(N_FACE)]
+        for i in range(N_FACE):
+            for j in range(i):
+                ctx.solver.add(data[i] != data[j])
+        ctx.eng.declare("data", data)
+        return lon, data
+
+    @_with_stubs
+    def run(ctx, inp):
+        lon, data = inp
+        g = _grid(lon)
+        P = stubs.Projection(proj, central)
+        U = world().get("uxarray.core.dataarray", "UxDataArray")
+        gdf = U(C.sarr_1d(data, symnp.float64), dims=["n_face"], uxgrid=g, name="v").to_geodataframe(periodic_elements=pe, engine=engine, projection=P, project=project)
+        # longitudes relative to the projection's central meridian: the library's own PlateCarree(central) transform (uninterpreted)
+        if central != 0.0:
+            fx = z3.Function("proj_x", z3.IntSort(), z3.RealSort(), z3.RealSort(), z3.RealSort(), z3.RealSort())
+            xs = [fx(3, sc.lift(central), lon[i], sc.lift(float(LAT[i]))) for i in range(len(lon))]
+        else:
+            xs = list(lon)
+        am = [_am(xs, f) for f in range(N_FACE)]
+        col = gdf["v"]
+        colr = col.raw() if hasattr(col, "raw") else col
+        nrows = col.shape[0] if hasattr(col, "shape") else len(col)
+        if pe == "exclude":
+            K = z3.Sum([z3.If(am[f], 0, 1) for f in range(N_FACE)])
+            cl = [sc.z(nrows) == K]
+            cap = colr.shape_cap[0] if hasattr(colr, "shape_cap") else len(colr)
+            for f in range(N_FACE):
+                rank = z3.Sum([z3.If(am[h], 0, 1) for h in range(f)]) if f else z3.IntVal(0)
+                for k in range(cap):
+                    cl.append(z3.Implies(z3.And(z3.Not(am[f]), rank == k), _zr(colr[k]) == data[f]))
+            ctx.prove("'exclude' with a projection: one row per face not crossing the projection's antimeridian, row k carries the k-th such face's value", z3.And(*cl))
+        else:
+            cap = colr.shape_cap[0] if hasattr(colr, "shape_cap") else len(colr)
+            ctx.prove(f"'{pe}' with a projection: one row per face, row f carries face f's value",
+                      z3.And(sc.z(nrows) == N_FACE, *[_zr(colr[f]) == data[f] for f in range(min(cap, N_FACE))]) if cap >= N_FACE else False)
+        ctx.reachable("some face crosses the projection's antimeridian", z3.Or(*am))
+
+    def replay(v):
+        import uxarray as ux
+        import cartopy.crs as rccrs
+        lon = [float(x) for x in v["lon"]]
+        g = C.real_grid(ROWS, lon, LAT)
+        data = np.array(v["data"], dtype=float)
+        P = rccrs.Robinson(central_longitude=central)
+        try:
+            gdf = ux.UxDataArray(data, dims=["n_face"], uxgrid=g, name="v").to_geodataframe(periodic_elements=pe, engine=engine, projection=P, project=project, cache=False)
+        except Exception as e:
+            return f"to_geodataframe('{pe}', {engine}, Robinson(central_longitude={central}), project={project}) raised {type(e).__name__}: {str(e)[:150]}"
+        shifted = [((x - central + 180.0) % 360.0) - 180.0 for x in lon]
+        am = _real_am(shifted)
+        keep = [f for f in range(N_FACE) if f not in am] if pe == "exclude" else list(range(N_FACE))
+        got = np.asarray(gdf["v"], dtype=float)
+        if len(gdf) != len(keep) or len(got) != len(keep) or not np.allclose(got, data[keep]):
+            return (f"to_geodataframe('{pe}', {engine}, Robinson(central_longitude={central}), project={project}) on node longitudes {lon}: {len(gdf)} rows with data {got.tolist()}, "
+                    f"expected the {len(keep)} faces {keep} with values {data[keep].tolist()}")
+        return None
+
+    return Obligation(oid, f"UxDataArray.to_geodataframe('{pe}', engine={engine}, projection central longitude {central}, project={project}): rows <-> faces", setup, run, replay,
+                      exact=False, functions=FUNCS, bounds="4 faces over 8 nodes, all node longitudes symbolic, distinct data values", stubs=STUBS, max_paths=3000)
+
+
 # ------------------------------------------------------------------ conversion histories (cache logic), symbolic arguments
 def make_history(oid, kind, n_calls=3, tiers=("quick", "thorough"), dom=None):
     """kind in {'poly','gdf','line','poly_data'}: n_calls conversions on one grid with symbolic arguments; each result must be what a
@@ -531,12 +602,18 @@ def obligations(tier):
     obs += [make_gdf("C15.gdf.exclude.sp.data", "exclude", "spatialpandas", True), make_gdf("C15.gdf.exclude.gp", "exclude", "geopandas", False),
             make_gdf("C15.gdf.split.sp.data", "split", "spatialpandas", True), make_gdf("C15.gdf.split.gp", "split", "geopandas", False),
             make_gdf("C15.gdf.ignore.gp.data", "ignore", "geopandas", True), make_gdf("C15.gdf.ignore.sp", "ignore", "spatialpandas", False)]
+    obs += [make_gdf_proj("C15.gdf.proj.exclude.sp.P2", "exclude", "spatialpandas", "P2", True), make_gdf_proj("C15.gdf.proj.exclude.gp.P2.noproject", "exclude", "geopandas", "P2", False),
+            make_gdf_proj("C15.gdf.proj.ignore.sp.P1", "ignore", "spatialpandas", "P1", True), make_gdf_proj("C15.gdf.proj.ignore.gp.P2", "ignore", "geopandas", "P2", True)]
     two = {"*": {"pe": ["exclude", "ignore"]}}
     obs += [make_history("C15.history.line", "line", 2, dom={"*": {"pe": ["exclude", "split"], "proj": [None, "P1"]}}), make_history("C15.history.poly", "poly", 2, dom=two),
             make_history("C15.history.poly_data", "poly_data", 3,
                          dom={0: {"pe": ["exclude", "split"], "proj": [None, "P1"], "cache": [True], "override": [False]},
                               1: {"pe": ["exclude", "split"], "proj": [None, "P1"], "override": [False]},
                               2: {"pe": ["exclude", "split"], "proj": [None, "P1"], "cache": [True], "override": [False], "data": [True]}}),
+            make_history("C15.history.line3q", "line", 3,
+                         dom={0: {"pe": ["exclude", "split"], "proj": [None], "cache": [True], "override": [False]},
+                              1: {"pe": ["exclude", "split"], "proj": [None], "override": [False]},
+                              2: {"pe": ["exclude", "split"], "proj": [None], "cache": [True], "override": [False]}}),
             make_history("C15.history.gdf", "gdf", 2, dom={"*": {"proj": [None, "P1"]}}),
             make_history("C15.history.gdf_data", "gdf_data", 2, dom={"*": {"proj": [None, "P1"], "eng": ["spatialpandas"], "override": [False]}}),
             make_history("C15.history.line3", "line", 3, tiers=("thorough",), dom={"*": {"proj": [None, "P1"]}}),
